@@ -211,11 +211,13 @@ class CandleManager:
                 prev_candle.timestamp
                 and candles[index].timestamp != prev_candle.timestamp + timeframe
             ):
+                # An already converted candle (E.G Heikin-Ashi) keeps it's raw close in clean_values
+                close = prev_candle.clean_values.get("close", prev_candle.close)
                 fill_candle = Candle(
-                    open=prev_candle.close,
-                    close=prev_candle.close,
-                    high=prev_candle.close,
-                    low=prev_candle.close,
+                    open=close,
+                    close=close,
+                    high=close,
+                    low=close,
                     volume=0,
                     timestamp=prev_candle.timestamp + timeframe,
                 )
